@@ -920,6 +920,9 @@ class EditableParentImpl(BaseParentImpl):
 
         from modelx.io.pandasio import PandasData
         self._check_io_name(name)
+        if self.model.refmgr.has_spec(data):
+            # A second spec would never be found by its value
+            raise ValueError("The value already has an IOSpec")
         spec = self.system.iomanager.new_spec(
             PandasData,
             io_group=self.model.interface,
